@@ -257,3 +257,16 @@ def is_concrete(v):
 
 def z3_is_true(t):
     return z3.is_true(t)
+
+
+class CoroVal:
+    """A coroutine object: an `async def` that was called but not yet awaited."""
+
+    def __init__(self, f, self_val, args, kwargs):
+        self.f = f
+        self.self_val = self_val
+        self.args = args
+        self.kwargs = kwargs
+
+    def __deepcopy__(self, memo):
+        return self
